@@ -105,6 +105,48 @@ def roundtrip(sym, shape, opts):
     sym.check("second-dump-identical", text2 == text)
 
 
+def edited_roundtrip(sym, unified_before, unified_after, additional_before, additional_after):
+    """an image that was read from a file is edited through its attributes and written again: what is read back is the edited
+    image - nothing of the record it was loaded from survives the edit"""
+    im = Images()
+    im.compose.id = "Fedora-20-20131212.0"
+    im.compose.type = "production"
+    im.compose.date = "20131212"
+    im.compose.respin = 0
+    o = {"volume_id": [True], "two_checksums": [False], "implant": [True], "unified": [unified_before], "additional": [list(additional_before)]}
+    img = make_image(sym, im, 0, o)
+    try:
+        im.add("Server", "x86_64", img)
+        text = im.dumps()
+    except (ValueError, TypeError):
+        return
+    loaded = Images()
+    loaded.loads(text)
+    sym.cover("written")
+    got = list(loaded.images["Server"]["x86_64"])[0]
+    # ---- the edit: every attribute gets a new value
+    new = {"path": sym.str("new_path", 3, minlen=1), "mtime": sym.int("new_mtime"), "size": sym.int("new_size", 1, None),
+           "volume_id": None, "type": sym.one_of("new_type", SUPPORTED_IMAGE_TYPES), "format": sym.one_of("new_format", SUPPORTED_IMAGE_FORMATS),
+           "arch": sym.str("new_arch", 3, minlen=1), "disc_number": sym.int("new_discnum"), "disc_count": sym.int("new_disccount"),
+           "checksums": {"md5": sym.str("new_md5", 3)}, "implant_md5": None, "bootable": sym.bool("new_bootable"),
+           "subvariant": sym.str("new_subvariant", 3), "unified": unified_after, "additional_variants": list(additional_after)}
+    for k in ATTRS:
+        setattr(got, k, new[k])
+    try:
+        text2 = loaded.dumps()
+    except (ValueError, TypeError):
+        return
+    sym.cover("reloaded")
+    third = Images()
+    third.loads(text2)
+    sym.cover("rewritten")
+    back = list(third.images["Server"]["x86_64"])
+    sym.check("one-image", len(back) == 1)
+    for k in ATTRS:
+        sym.check("edited-%s-read-back" % k, sym.same(getattr(back[0], k), new[k]))
+    sym.check("third-dump-identical", third.dumps() == text2)
+
+
 def _opts(k):
     """rotating choice of the optional parts of the three pool images"""
     bit = lambda n: [bool((k >> (n + j)) & 1) for j in range(3)]
@@ -120,16 +162,20 @@ def jobs(tier, seed):
     for si, shape in enumerate(SHAPES):
         for k in ks:
             out.append({"harness": "roundtrip", "params": {"shape": shape, "opts": _opts(k + si + seed)}, "validate_every": 30})
+    for ub, ua, ab, aa in ((True, False, ["Client", "Server"], []), (False, True, [], ["Workstation"]), (True, True, ["Client"], ["Workstation", "Client"]),
+                           (False, False, [], [])):
+        out.append({"harness": "edited_roundtrip", "params": {"unified_before": ub, "unified_after": ua, "additional_before": ab, "additional_after": aa}})
     return out
 
 
 META = {
-    "expected_covers": {"roundtrip": ["written", "reloaded", "rewritten"]},
+    "expected_covers": {"roundtrip": ["written", "reloaded", "rewritten"], "edited_roundtrip": ["written", "reloaded", "rewritten"]},
     "assumptions": [
         "JSON text layer replaced by the DocText stub (contract in psx/stubs.py)",
         "cell layouts from the catalogue in harness/C02.py (<= 3 variants/arches, <= 3 images per cell, one image object filed under several cells); "
         "variant and arch keys concrete, every image attribute symbolic (sizes and times unbounded integers)",
         "image size >= 1: size 0 is refused by the writer although no document says so (treated as outside the claim)",
         "checksum type names concrete (sha256, md5), their values symbolic",
+        "edited_roundtrip: one image is written, read back, every one of its 15 attributes replaced (unified switched on/off/kept, additional variants replaced), written and read again",
     ],
 }
